@@ -4,3 +4,9 @@ claim("C11", "exploration",
       "the explicit hexagonal graph; finite tables (links, routes, hexagon rings) checked completely.",
       "BFS oracle in /verif; random() is used by rig only as additive noise (menu of 3 values reaches every order); "
       "sizes beyond the bound are not covered.", "DESIGN.md section 4, C11")
+claim("C05", "exploration",
+      "Every reservation layout (<=2, thorough <=3 disjoint ranges, global or per-chip) x alignment x vertex tuple on one chip, and "
+      "two-chip/two-resource/exception-chip combinations with all placements and dict orders, run through the real allocator and "
+      "judged clause by clause (size, range, alignment, reservation and vertex disjointness, only documented error, completeness).",
+      "Scope bounded to capacity 8 and <=3 vertices; reservations satisfy the documented precondition (disjoint, inside the chip).",
+      "DESIGN.md section 4, C05")
